@@ -226,6 +226,7 @@ impl BDF {
 
         let mut order = 1usize;
         let mut n_equal_steps = 0usize;
+        let mut hmin_retries = 0usize;
         let status;
 
         let mut psi = vec![0.0; n];
@@ -295,6 +296,13 @@ impl BDF {
                 lu_is_current = false;  // Step size changed
             }
             if h_try < hmin && hmin > 0.0 {
+                // The step cannot be reduced below min_step. If attempts at the minimum keep
+                // being rejected there is nothing left to try: stop instead of retrying forever.
+                hmin_retries += 1;
+                if hmin_retries > 3 {
+                    status = Status::StepSizeTooSmall;
+                    break;
+                }
                 let factor = (hmin / h_try).max(1.0);
                 change_d(&mut d, order, factor, &mut scratch_change);
                 h_try = hmin;
@@ -492,6 +500,7 @@ impl BDF {
             }
 
             steps.accepted += 1;
+            hmin_retries = 0;
             n_equal_steps += 1;
             x = x_new;
             y.copy_from_slice(&y_new);
